@@ -49,8 +49,8 @@ SLICES = {
 }
 TIERS = {'quick': ['q1', 'q2', 'q3', 'q4', 'q5'], 'thorough': ['q1', 'q2', 'q3', 'q4', 'q5', 'q6', 'q7', 't1', 't3']}
 # quick tier: the slices that exercise the property's own phases (thorough runs all of them for every property)
-QUICK = {'C07': ['q1', 'q2', 'q4', 'q5'], 'C08': ['q1', 'q2', 'q6'], 'C09': ['q4', 'q5', 'q6'],
-         'C10': ['q2', 'q3', 'q5'], 'C19': ['q4', 'q5', 'q7']}
+QUICK = {'C07': ['q2', 'q5'], 'C08': ['q1', 'q2'], 'C09': ['q5', 'q6'],
+         'C10': ['q3', 'q5'], 'C19': ['q4', 'q7']}
 
 
 def cfg_text(sl, formulas, export=None, devs=()):
@@ -154,7 +154,8 @@ def run(out, prop, tier, seed, max_replay=None, only_slices=None):
         nsrc, nsea, nbor = SLICES[sl][:3]
         import time as _t
         t0 = _t.time()
-        res = model_check(sl, formulas)
+        # quick tier: every 7th terminal state is exported (the replay sample is drawn from them); thorough: all of them
+        res = model_check(sl, formulas, export='ExportSome' if (tier == 'quick' and not only_slices) else 'Export')
         t1 = _t.time()
         out.add_tlc(res, 'MibCompile/' + sl)
         cov = out.extra.setdefault('action_coverage', {})
